@@ -93,6 +93,15 @@ def gen(streams, tier, i):
     for _ in range(ar.randint(0, 3)):
         ops.append({"op": "posassign", "li": ar.randrange(1000), "fi": ar.randrange(1000), "valid": ar.random() < 0.4,
                     "vi": ar.randrange(1000), "reads": ar.randint(0, 2)})
+    for _ in range(ar.randint(0, 2)):
+        # a brand-new tag, no datatype declared: the default datatype applies (i, f, Z, J, B, H)
+        valid = ar.random() < 0.3
+        pool = ([5, "abc", {"__t": "float", "v": 1.5}, {"a": 1}, [1, 2], {"__t": "bytearray", "v": [1]}] if valid else
+                ["a\tb", "", "a\nb", {"__t": "float", "v": "nan"}, {"__t": "float", "v": "inf"}, [2 ** 40], [1, 2 ** 32],
+                 {"__t": "bytearray", "v": []}])
+        ops.append({"op": "assign", "li": ar.randrange(1000), "tag": ar.choice(["qd", "qe"]), "dtype": None,
+                    "value": ar.choice(pool), "valid": valid, "connected": ar.random() < 0.6,
+                    "reads": ar.randint(0, 2), "repair": 1})
     for _ in range(ar.randint(1, 5)):
         dt = ar.choice(sorted(ASSIGN))
         valid = ar.random() < 0.4
@@ -246,9 +255,10 @@ def run_assign(scn, st):
                     return
                 line = oo.value
             core.call(line.delete, tag)
-            d = core.call(line.set_datatype, tag, dt)
-            if not d.ok:
-                return
+            if dt is not None:
+                d = core.call(line.set_datatype, tag, dt)
+                if not d.ok:
+                    return
             a = core.call(line.set, tag, x)
             st.count("oracle.surfacing")
             st.state(digest(["assign", dt, repr(x), lvl, a.ok, line.record_type, op["connected"]]))
